@@ -26,6 +26,22 @@ type cliClient struct {
 	stmts    types.Object          // result of SplitStatements
 }
 
+// Inline: small helpers of the command (a compile-and-print function, predicates) are interpreted in place.
+func (c *cliClient) Inline(e *Engine, call *ast.CallExpr, callee *types.Func, decl *ast.FuncDecl) bool {
+	if callee.Pkg() == nil || callee.Pkg().Path() != PathMain || !smallBody(decl) {
+		return false
+	}
+	loops := false
+	ast.Inspect(decl.Body, func(n ast.Node) bool {
+		switch n.(type) {
+		case *ast.ForStmt, *ast.RangeStmt:
+			loops = true
+		}
+		return true
+	})
+	return !loops
+}
+
 func isScannerErr(callee *types.Func) bool {
 	return callee != nil && callee.FullName() == "(*bufio.Scanner).Err"
 }
@@ -106,15 +122,10 @@ func (c *cliClient) PreCall(e *Engine, st *State, call *ast.CallExpr, callee *ty
 	// C16/prelude: every Compile call is fed the prelude first.
 	if callee == c.compile {
 		c.compiles++
-		key := fmt.Sprintf("%s call #%d of pql.Compile", c.fn, c.ordinal(e, call, func(cc *ast.CallExpr) bool { return Callee(info, cc) == c.compile }))
-		left := call.Args[0]
-		for {
-			b, ok := ast.Unparen(left).(*ast.BinaryExpr)
-			if !ok || b.Op != token.ADD {
-				break
-			}
-			left = b.X
-		}
+		key := fmt.Sprintf("%s call #%d of pql.Compile", c.where(e), c.ordinal(e, call, func(cc *ast.CallExpr) bool { return Callee(info, cc) == c.compile }))
+		// the first operand of the concatenation, with temporaries and helper parameters looked through
+		pieces := e.flattenConcat(call.Args[0], nil, 0)
+		left := pieces[0]
 		ok := false
 		if lc, isCall := ast.Unparen(left).(*ast.CallExpr); isCall {
 			if sel, isSel := ast.Unparen(lc.Fun).(*ast.SelectorExpr); isSel && sel.Sel.Name == "String" && objOf(info, sel.X) == c.prelude && c.prelude != nil {
@@ -129,7 +140,7 @@ func (c *cliClient) PreCall(e *Engine, st *State, call *ast.CallExpr, callee *ty
 	}
 	// C16/let-on-success: the prelude only grows after the statement compiled.
 	if sel, ok := ast.Unparen(call.Fun).(*ast.SelectorExpr); ok && objOf(info, sel.X) == c.prelude && c.prelude != nil && strings.HasPrefix(sel.Sel.Name, "Write") {
-		key := fmt.Sprintf("%s prelude write #%d", c.fn, c.ordinal(e, call, func(cc *ast.CallExpr) bool {
+		key := fmt.Sprintf("%s prelude write #%d", c.where(e), c.ordinal(e, call, func(cc *ast.CallExpr) bool {
 			s2, ok := ast.Unparen(cc.Fun).(*ast.SelectorExpr)
 			return ok && objOf(info, s2.X) == c.prelude && strings.HasPrefix(s2.Sel.Name, "Write")
 		}))
@@ -155,14 +166,14 @@ func (c *cliClient) PreCall(e *Engine, st *State, call *ast.CallExpr, callee *ty
 		}
 	}
 	// C16/output: SQL is printed under err == nil, followed by a blank line.
-	if callee != nil && callee.FullName() == "fmt.Fprintf" && len(call.Args) >= 2 && (objOf(info, call.Args[0]) == c.output || c.wrappers[objOf(info, call.Args[0])]) && c.output != nil {
-		if o := objOf(info, call.Args[0]); c.wrappers[o] {
+	if callee != nil && callee.FullName() == "fmt.Fprintf" && len(call.Args) >= 2 && c.output != nil && c.isOutput(e, call.Args[0]) {
+		if o := objOf(info, e.ResolveExpr(call.Args[0])); c.wrappers[o] {
 			st = st.WithExt("dirty:"+e.objKey(o), "1")
 		}
 		c.fprintfs++
-		key := fmt.Sprintf("%s output write #%d", c.fn, c.ordinal(e, call, func(cc *ast.CallExpr) bool {
+		key := fmt.Sprintf("%s output write #%d", c.where(e), c.ordinal(e, call, func(cc *ast.CallExpr) bool {
 			f := Callee(info, cc)
-			return f != nil && f.FullName() == "fmt.Fprintf" && len(cc.Args) >= 2 && (objOf(info, cc.Args[0]) == c.output || c.wrappers[objOf(info, cc.Args[0])])
+			return f != nil && f.FullName() == "fmt.Fprintf" && len(cc.Args) >= 2 && c.isOutput(e, cc.Args[0])
 		}))
 		format, isConst := constString(info, call.Args[1])
 		okFmt := isConst && format == "%s\n\n" && len(call.Args) == 3
@@ -195,9 +206,22 @@ func (c *cliClient) PreCall(e *Engine, st *State, call *ast.CallExpr, callee *ty
 	return nil
 }
 
+// isOutput: x is the output writer of run (or a buffered wrapper of it), possibly through a helper's parameter.
+func (c *cliClient) isOutput(e *Engine, x ast.Expr) bool {
+	o := objOf(e.Info, e.ResolveExpr(x))
+	return o != nil && (o == c.output || c.wrappers[o])
+}
+
+func (c *cliClient) where(e *Engine) string {
+	if k := e.FrameKey(); k != "" {
+		return c.fn + " > " + k
+	}
+	return c.fn
+}
+
 func (c *cliClient) ordinal(e *Engine, call *ast.CallExpr, match func(*ast.CallExpr) bool) int {
 	n, idx := 0, 0
-	ast.Inspect(e.Func.Body, func(x ast.Node) bool {
+	ast.Inspect(e.CurFunc().Body, func(x ast.Node) bool {
 		if cc, ok := x.(*ast.CallExpr); ok && match(cc) {
 			n++
 			if cc == call {
@@ -530,8 +554,8 @@ func ruleC16Carry(p *Program, r *Run, fd *ast.FuncDecl) {
 		return
 	}
 	isLastPiece := func(e ast.Expr) bool {
-		ix, ok := ast.Unparen(e).(*ast.IndexExpr)
-		return ok && objOf(info, ix.X) == stmts && isLenMinus1(info, ix.Index, stmts)
+		ix, ok := p.DefExpr(e).(*ast.IndexExpr)
+		return ok && objOf(info, ix.X) == stmts && isLenMinus1(info, p.DefExpr(ix.Index), stmts)
 	}
 	// every write into the pending buffer
 	n := 0
@@ -569,7 +593,7 @@ func ruleC16Carry(p *Program, r *Run, fd *ast.FuncDecl) {
 			}
 		default:
 			if c2, isCall := arg.(*ast.CallExpr); isCall {
-				if f := Callee(info, c2); f != nil && f.FullName() == "(*bufio.Scanner).Bytes" {
+				if f := Callee(info, c2); f != nil && (f.FullName() == "(*bufio.Scanner).Bytes" || f.FullName() == "(*bufio.Scanner).Text") {
 					ok2, how = true, "the bytes of the line just read"
 				}
 			}
@@ -593,7 +617,7 @@ func ruleC16Carry(p *Program, r *Run, fd *ast.FuncDecl) {
 		if !ok || rs.Value == nil {
 			return true
 		}
-		if sl, ok := ast.Unparen(rs.X).(*ast.SliceExpr); ok && objOf(info, sl.X) == stmts && sl.Low == nil && isLenMinus1(info, sl.High, stmts) {
+		if sl, ok := p.DefExpr(rs.X).(*ast.SliceExpr); ok && objOf(info, sl.X) == stmts && sl.Low == nil && isLenMinus1(info, p.DefExpr(sl.High), stmts) {
 			rangeVal = objOf(info, rs.Value)
 		}
 		return true
@@ -614,25 +638,61 @@ func ruleC16Carry(p *Program, r *Run, fd *ast.FuncDecl) {
 		}
 		return true
 	})
-	k := 0
+	// the Compile calls of run, and those of the small helpers run calls (with the helper's parameters replaced by
+	// the arguments of the call)
+	type compileSite struct {
+		call *ast.CallExpr
+		src  ast.Expr
+	}
+	var sites []compileSite
 	ast.Inspect(fd.Body, func(x ast.Node) bool {
 		call, ok := x.(*ast.CallExpr)
-		if !ok || Callee(info, call) != compile {
+		if !ok {
 			return true
 		}
+		callee := Callee(info, call)
+		if callee == compile {
+			sites = append(sites, compileSite{call, call.Args[0]})
+			return true
+		}
+		decl, dpkg := p.DeclOf(callee)
+		if decl == nil || dpkg != pkg || decl == fd {
+			return true
+		}
+		env := map[types.Object]ast.Expr{}
+		i := 0
+		for _, f := range decl.Type.Params.List {
+			for _, nm := range f.Names {
+				if o := info.Defs[nm]; o != nil && i < len(call.Args) && p.neverReassigned(o) {
+					env[o] = call.Args[i]
+				}
+				i++
+			}
+		}
+		ast.Inspect(decl.Body, func(y ast.Node) bool {
+			if c2, ok := y.(*ast.CallExpr); ok && Callee(info, c2) == compile && len(c2.Args) == 1 {
+				sites = append(sites, compileSite{c2, p.Subst(c2.Args[0], env)})
+			}
+			return true
+		})
+		return true
+	})
+	k := 0
+	for _, site := range sites {
+		call := site.call
 		k++
 		// operands of the + chain other than the leading prelude and constant suffixes
 		var ops []ast.Expr
 		var flat func(e ast.Expr)
 		flat = func(e ast.Expr) {
-			if b, ok := ast.Unparen(e).(*ast.BinaryExpr); ok && b.Op == token.ADD {
+			if b, ok := p.Resolve(e).(*ast.BinaryExpr); ok && b.Op == token.ADD {
 				flat(b.X)
 				flat(b.Y)
 				return
 			}
-			ops = append(ops, ast.Unparen(e))
+			ops = append(ops, p.Resolve(e))
 		}
-		flat(call.Args[0])
+		flat(site.src)
 		var vars []types.Object
 		okShape := true
 		for i, o := range ops {
@@ -652,8 +712,7 @@ func ruleC16Carry(p *Program, r *Run, fd *ast.FuncDecl) {
 		}
 		okStmt := okShape && len(vars) == 1 && (vars[0] == rangeVal || (tailVar != nil && vars[0] == tailVar))
 		key := fmt.Sprintf("%s statement text of Compile call #%d", fn, k)
-		r.Check(okStmt, "C16/carry", key, p.Pos(call.Pos()), "the piece produced by the split (or the pending text at end of input), unmodified", "the text handed to pql.Compile is not exactly one piece of the split / the pending text: "+exprStr(call.Args[0]))
-		return true
-	})
+		r.Check(okStmt, "C16/carry", key, p.Pos(call.Pos()), "the piece produced by the split (or the pending text at end of input), unmodified", "the text handed to pql.Compile is not exactly one piece of the split / the pending text: "+exprStr(site.src))
+	}
 	r.Floor("C16/carry", 7)
 }
